@@ -40,7 +40,7 @@ bool equal_icase(tlx::string_view a, const char* b)
     while (ai != a.end() && *b != 0 && to_lower(*ai) == to_lower(*b))
         ++ai, ++b;
 
-    return ai == a.end() && *b != 0;
+    return ai == a.end() && *b == 0;
 }
 
 bool equal_icase(tlx::string_view a, tlx::string_view b)
